@@ -105,6 +105,8 @@ class FaultyFS:
         self.log = []             # (name, phase, ok)
         self.irrev = False        # a forward-phase primitive succeeded that cannot be compensated exactly
         self.removed = False      # ... and it was a RemoveResource
+        self.unexpected_irrev = False   # ... in a way no input can cause on the verified code (see _why)
+        self._why = None
         self.observer_reads = 0
         self.unmodelled = False
         self.unknown_phase = 0
@@ -136,6 +138,7 @@ class FaultyFS:
                     pass
             raise InjectedFault("injected fault at primitive call %d (%s)" % (i, name))
         rev = None
+        self._why = None
         if forward and self.op is not None:
             try:
                 rev = reversible(chg, meth)
@@ -151,6 +154,10 @@ class FaultyFS:
             self.irrev = True
             if name == "remove" and meth == "do":
                 self.removed = True
+            if self._why is not None:
+                # an edit without recorded old contents created its file / a file was moved below a folder
+                # that did not exist: the verified code refuses both before anything happens
+                self.unexpected_irrev = True
         return res
 
     # ---- the FileSystemCommands interface ------------------------------------------------------
@@ -167,6 +174,9 @@ class FaultyFS:
             self.unmodelled = True          # shutil.move's copytree fallback creates the ancestors
 
         def reversible(c, m):
+            if not os.path.isdir(path) and not os.path.lexists(new_location) \
+                    and not os.path.isdir(os.path.dirname(new_location)):
+                self._why = "file moved below a missing folder"
             return (os.path.lexists(path) and not os.path.lexists(new_location)
                     and os.path.isdir(os.path.dirname(new_location))
                     and not (new_location + os.sep).startswith(path + os.sep))
@@ -185,6 +195,8 @@ class FaultyFS:
     def write(self, path, data):
         def reversible(c, m):
             if not os.path.isfile(path):
+                if m == "do" and not getattr(c, "_verif_explicit_old", False) and not os.path.lexists(path):
+                    self._why = "an edit without recorded old contents created the file"
                 return False                                    # open(.., "wb") creates the file
             with open(path, "rb") as f:
                 cur = f.read()
@@ -300,7 +312,9 @@ def build_change(project, spec):
     from rope.base import change as ch
     kind = spec[0]
     if kind == "CC":
-        return ch.ChangeContents(project.get_file(spec[1]), spec[2], spec[3])
+        c = ch.ChangeContents(project.get_file(spec[1]), spec[2], spec[3])
+        c._verif_explicit_old = spec[3] is not None
+        return c
     if kind == "MV":
         res = project.get_folder(spec[1]) if spec[3] else project.get_file(spec[1])
         return ch.MoveResource(res, spec[2], exact=True)
@@ -539,6 +553,7 @@ def execute(scn, flt=None, stp=None, record_setup=False, obs=None, obsfail=None,
             r.log = list(fsc.log)
             r.py_irrev = fsc.irrev
             r.removed = fsc.removed
+            r.unexpected_irrev = fsc.unexpected_irrev
             r.unmodelled = fsc.unmodelled
             r.unknown_phase = fsc.unknown_phase
             r.observer_reads = fsc.observer_reads
